@@ -15,7 +15,7 @@ import world as W
 ID = 'C12'
 LEVEL = 'fault_enumeration'
 N_QUICK = 6000
-N_THOROUGH = 150000
+N_THOROUGH = 120000
 
 COOP_KINDS = ['raise', 'raise', 'wrong', 'interrupt', 'interrupt', 'early_exit', 'swap_stdout', 'close_stdout',
               'warn_filters', 'warn', 'bad_repr', 'mute']
